@@ -106,13 +106,14 @@ def replay(ob, pid):
         'meta': {k: v for k, v in ob.meta.items() if k in ('line', 'exc', 'trace', 'contract', 'callee', 'family')},
         'native': None,
         'detail': ob.detail,
+        'input': ob.meta.get('input') if ob.meta else None,
     }
     confirmed = False
     fam = family_of(ob)
     doc['family'] = fam
     with open(path, 'w') as f:
         json.dump(doc, f, indent=1, default=str)
-    if fam is not None and model:
+    if fam is not None and (model or doc['input'] is not None):
         try:
             env = dict(os.environ)
             env['PYTHONPATH'] = REPO
